@@ -27,20 +27,38 @@ Definition enc_file_f (wc : Z) (m0 : meta) (meta_ns : Z) (f : list Z * meta * Z 
   enc_file f ++ [enc_bool (rd_fudged m' nb meta_ns)]
   ++ (if wc =? 1 then enc_list (fun s => [enc_bool (fst s); snd s]) (lf_col_sources m0 chns) else [0]).
 
+(* input : nsf :: nsamples_arg :: off :: nwindow_arg :: imDatPrb_type :: meta_ns :: nominal :: wc :: assert_shanks
+           :: acq0 :: acq1 :: acq2 :: sns0 :: sns1 :: sns2 :: nsaved :: fsize :: rate :: subset_hi
+           :: k :: nshank_1 .. nshank_k          (the nshank argument; k = 0: None)
+           :: shank of every site (rest of the list)
+   (arguments 0 stand for None: nsamples -> sr.ns, nwindow -> 2 * fs_ap)
+   output: 2 (probe type not NP2: status -1, nothing written) | 0 (raises) | 1 :: ... as above, for the shanks the
+   model says are processed *)
 Definition run (inp : list Z) : list Z :=
   match inp with
-  | nsf :: ns :: off :: W :: version :: meta_ns :: nominal :: wc
+  | nsf :: nsarg :: off :: warg :: prb :: meta_ns :: nominal :: wc :: ash
     :: a0 :: a1 :: a2 :: s0 :: s1 :: s2 :: nsv :: fsz :: rt :: shi :: k :: rest =>
-      let shs := firstn (Z.to_nat k) rest in
+      let nshank := firstn (Z.to_nat k) rest in
       let shanks := skipn (Z.to_nat k) rest in
+      let version := np_version prb in
+      let ns := nsamples_of nsarg nsf in
+      let W := window_of warg in
       let m := {| acq0 := a0; acq1 := a1; acq2 := a2; sns0 := s0; sns1 := s1; sns2 := s2;
                   nsaved := nsv; fsize := fsz; rate := rt; subset_hi := shi;
                   subset_orig := []; original_meta := true; shank_key := -1 |} in
-      match lf_nsamples_off nsf off ns W, lf_positions_off nsf off ns W with
-      | Some n, Some ps =>
-          1 :: (if nominal =? 1 then meta_ns_nominal nsf else meta_ns) :: n :: enc_zlist ps
-            ++ enc_list (fun sh => enc_file_f wc m meta_ns (lf_file version m shanks n meta_ns sh)) shs
-      | _, _ => [0]
+      if negb (admissible W) then [0]             (* the assert of init_params comes first *)
+      else if version =? 0 then [2]
+      else
+      match shanks_processed version nshank shanks (ash =? 1) with
+      | None => [0]
+      | Some shs =>
+        match lf_nsamples_off nsf off ns W, lf_positions_off nsf off ns W with
+        | Some n, Some ps =>
+            1 :: (if nominal =? 1 then meta_ns_nominal nsf else meta_ns) :: n :: enc_zlist ps
+              ++ enc_list (fun sh => enc_file_f wc m meta_ns
+                             (lf_file_chns version m (file_chns version (ash =? 1) shanks nsv s2 sh) n meta_ns sh)) shs
+        | _, _ => [0]
+        end
       end
   | _ => [-999]
   end.
